@@ -1,6 +1,7 @@
 package harness
 
 import (
+	"bytes"
 	"encoding/json"
 	"errors"
 	"fmt"
@@ -199,6 +200,59 @@ func c20ValidateUnit(unit string, env *fw.Env) *fw.Result {
 		}
 	}
 	res.Sample(map[string]any{"fields": len(fields), "bases": 3})
+	return res
+}
+
+// a save into a directory that still holds the temporary file of an earlier, interrupted save (longer, shorter, or
+// exactly as long as the new manifest; junk or a whole other configuration): stored and loaded back unchanged
+func c20StaleTempUnit(unit string, env *fw.Env) *fw.Result {
+	res := fw.NewResult()
+	root := fw.Scratch("c20s")
+	defer os.RemoveAll(root)
+	bases := c20Bases(filepath.Join(root, "cfg"))
+	for bi, base := range bases {
+		probe := filepath.Join(root, "probe")
+		os.RemoveAll(probe)
+		if err := base.SaveManifest(probe); err != nil {
+			res.HarnessErr = "probe save: " + err.Error()
+			return res
+		}
+		good, _ := os.ReadFile(filepath.Join(probe, "MANIFEST"))
+		other := cloneCfg(bases[(bi+1)%len(bases)])
+		other.WALDir += strings.Repeat("/longer-directory-name", 8)
+		otherDir := filepath.Join(root, "other")
+		os.RemoveAll(otherDir)
+		other.SaveManifest(otherDir)
+		otherJSON, _ := os.ReadFile(filepath.Join(otherDir, "MANIFEST"))
+		stale := map[string][]byte{
+			"junk-longer":       bytes.Repeat([]byte("\"stale\": 1,\n"), 400),
+			"junk-shorter":      []byte("{\"x\":"),
+			"junk-same-length":  bytes.Repeat([]byte("#"), len(good)),
+			"other-config":      otherJSON,
+			"same-plus-one":     append(append([]byte{}, good...), '}'),
+		}
+		for name, data := range stale {
+			dir := filepath.Join(root, "cfg")
+			os.RemoveAll(dir)
+			os.MkdirAll(dir, 0755)
+			os.WriteFile(filepath.Join(dir, "MANIFEST.tmp"), data, 0644)
+			res.Evaluations++
+			res.Nontrivial++
+			desc := fmt.Sprintf("base%d over a stale temporary file (%s, %d bytes)", bi, name, len(data))
+			if err := base.SaveManifest(dir); err != nil {
+				res.Violate(fw.FP("C20", "valid-config-rejected", desc), "valid-config-rejected\n"+desc+": SaveManifest failed with "+err.Error(), unit, map[string]any{"kind": "config", "desc": desc})
+				continue
+			}
+			got, err := config.LoadConfigFromManifest(dir)
+			if err != nil {
+				res.Violate(fw.FP("C20", "stored-config-unloadable", name), "stored-config-unloadable\n"+desc+": SaveManifest succeeded, LoadConfigFromManifest fails with "+err.Error(), unit, map[string]any{"kind": "config", "desc": desc})
+				continue
+			}
+			if !cfgEqual(got, base) {
+				res.Violate(fw.FP("C20", "round-trip-differs", name), "round-trip-differs\n"+desc, unit, map[string]any{"kind": "config", "desc": desc})
+			}
+		}
+	}
 	return res
 }
 
@@ -539,10 +593,10 @@ func init() {
 	fw.Register(&fw.Check{
 		ID:    "C20",
 		Level: "exploration",
-		Rule: "constraint table of 15 documented clauses written independently of Validate; for 3 valid base configurations: every single-field deviation over {bound-1, bound, bound+1, typical}, every pair of fields over all their values, and the full product warning x critical threshold in [-1,101]^2: Validate accepts <=> table; a rejected configuration makes SaveManifest fail without a single file-system call (recorded through the os shim); an accepted one is stored and loaded back equal in every field. Thorough tier: every triple of the 15 constrained fields over all their values, and every single / pair assignment of extreme values (int64 and int32 limits, 2^53+1, unknown sync modes, long and oddly-charactered directory names) to the fields without a documented constraint: valid, stored, loaded back equal. Open: a database created with an all-non-default configuration runs with it (also after reopen; custom directories used); every truncation of the stored manifest, every constrained setting removed or null, an empty object / null / array, every single-byte damage x 5 value classes and every crash cut / torn write of a manifest update over existing data: opening fails with an error or runs with the stored (old or new) configuration - never with defaults, and never when the stored object lacks a setting that has a documented constraint. Non-trivial = configurations violating a clause / damaged manifests",
+		Rule: "constraint table of 15 documented clauses written independently of Validate; for 3 valid base configurations: every single-field deviation over {bound-1, bound, bound+1, typical}, every pair of fields over all their values, and the full product warning x critical threshold in [-1,101]^2: Validate accepts <=> table; a rejected configuration makes SaveManifest fail without a single file-system call (recorded through the os shim); an accepted one is stored and loaded back equal in every field, also when the directory still holds the temporary file of an earlier interrupted save (longer / shorter / equally long junk, another configuration). Thorough tier: every triple of the 15 constrained fields over all their values, and every single / pair assignment of extreme values (int64 and int32 limits, 2^53+1, unknown sync modes, long and oddly-charactered directory names) to the fields without a documented constraint: valid, stored, loaded back equal. Open: a database created with an all-non-default configuration runs with it (also after reopen; custom directories used); every truncation of the stored manifest, every constrained setting removed or null, an empty object / null / array, every single-byte damage x 5 value classes and every crash cut / torn write of a manifest update over existing data: opening fails with an error or runs with the stored (old or new) configuration - never with defaults, and never when the stored object lacks a setting that has a documented constraint. Non-trivial = configurations violating a clause / damaged manifests",
 		Assumptions: []string{"a missing manifest is 'not found' (a new database), not 'invalid'", "a damaged byte that yields another valid configuration cannot be detected without a checksum and is not flagged; falling back to defaults is", "while an engine opens on a damaged manifest only the database directory is writable (os shim): directory paths damaged into places outside it fail with a permission error instead of littering the machine"},
 		Units: func(tier string) []string {
-			us := []string{"validate", "open/missing", "open/trunc", "open/byte/0/4", "open/byte/1/4", "open/byte/2/4", "open/byte/3/4", "open/crash"}
+			us := []string{"validate", "stale-temp", "open/missing", "open/trunc", "open/byte/0/4", "open/byte/1/4", "open/byte/2/4", "open/byte/3/4", "open/crash"}
 			if tier == "thorough" {
 				for i := 0; i < 12; i++ {
 					us = append(us, fmt.Sprintf("validate-triples/%d/12", i))
@@ -557,6 +611,9 @@ func init() {
 			}
 			if strings.HasPrefix(unit, "validate-triples/") {
 				return c20TriplesUnit(unit, env)
+			}
+			if unit == "stale-temp" {
+				return c20StaleTempUnit(unit, env)
 			}
 			if unit == "extremes" {
 				return c20ExtremesUnit(unit, env)
